@@ -21,6 +21,10 @@ Notation pexp := (Fmt0.pexp cf).
 Notation adj_ok := (LexAdj.adj_ok).
 Notation wf_tok := (LexAdj.wf_tok v).
 
+(* a line comment the lexer reads back: no line feed inside, not the opening of a long comment, and LF line endings
+   (full_moon makes the CR of a CR LF behind a line comment part of the comment) *)
+Definition wf_com (x : bytes) : Prop :=
+  no_lf x = true /\ (match x with ch :: _ => Lex.eqc ch "[" = false | [] => True end) /\ windows0 cf = false.
 (* ---- first characters ---- *)
 Definition hd0 (s : bytes) : ascii := match s with c :: _ => c | [] => " " end.
 Fixpoint fc (e : exp) : ascii :=
@@ -34,6 +38,7 @@ Fixpoint fc (e : exp) : ascii :=
   | EBin _ l _ => fc l
   | EParen _ => "(" | ETable _ | ETableML _ => "{"
   | FPos x => fc x | FNamed n _ => hd0 n | FKey _ _ => "["
+  | FLine _ f _ => fc f | FCom _ _ => "n"
   end.
 (* the first characters an expression that is not a table field can have *)
 Definition good (c : ascii) : bool :=
@@ -43,7 +48,10 @@ Proof. intros Hx Hc. destruct (Ascii.eqb c x) eqn:E; [|reflexivity]. apply Ascii
 
 Definition prefixlike (e : exp) : bool :=
   match e with EName _ | EParen _ | EField _ _ | EIndex _ _ | ECall _ _ _ | EMethod _ _ _ _ => true | _ => false end.
-Definition isfield (e : exp) : bool := match e with FPos _ | FNamed _ _ | FKey _ _ => true | _ => false end.
+(* fields, and the lines of a table over several lines: what may not stand where a plain expression is expected *)
+Definition isfield (e : exp) : bool := match e with FPos _ | FNamed _ _ | FKey _ _ | FLine _ _ _ | FCom _ _ => true | _ => false end.
+Notation isline := Fmt0Proof.isline.
+Definition wft (t : option bytes) : Prop := match t with Some x => wf_com x | None => True end.
 Definition wf_name (n : bytes) : Prop := wf_ident n /\ is_keyword v n = false.
 Definition wf_bop (b : bop) : bool :=
   match b with BOr | BXor | BAnd | Shl | Shr | IDiv => false | _ => true end.
@@ -61,7 +69,10 @@ Fixpoint wfe (e : exp) : Prop :=
   | EUn u x => wfe x /\ isfield x = false /\ match u with Neg => Ascii.eqb (fc x) "-" = false | Not | Len => True | BNot => False end
   | EBin b l r => wf_bop b = true /\ wfe l /\ isfield l = false /\ wfe r /\ isfield r = false
   | EParen x => wfe x /\ isfield x = false
-  | ETable fs | ETableML fs => all fs true
+  | ETable fs => all fs true /\ forallb (fun x => negb (isline x)) fs = true
+  | ETableML fs => all fs true
+  | FLine _ f t => wfe f /\ isfield f = true /\ isline f = false /\ wft t
+  | FCom _ x => wf_com x
   | FPos x => wfe x /\ isfield x = false
   | FNamed n x => wf_name n /\ wfe x /\ isfield x = false
   | FKey k x => wfe k /\ isfield k = false /\ wfe x /\ isfield x = false
@@ -110,6 +121,7 @@ Proof.
   - destruct W as (W & _). apply IHe. exact W.
   - destruct W as (W & _). destruct (wf_name_hd n W) as (c & r & E & _). subst. reflexivity.
   - destruct fs; reflexivity.
+  - destruct W as (W & _). apply IHe. exact W.
 Qed.
 Lemma fc_good : forall e, wfe e -> isfield e = false -> good (fc e) = true.
 Proof.
@@ -153,13 +165,18 @@ Proof.
   intros G. unfold nb, blank, Lex.eqc. rewrite (good_ne c Lex.SP), (good_ne c Lex.TAB), (good_ne c Lex.LF), (good_ne c Lex.CR); try reflexivity; exact G.
 Qed.
 Lemma start_good c : Lex.is_ident_start c = true -> good c = true. Proof. intros H. unfold good. rewrite H. reflexivity. Qed.
-Lemma fc_nb : forall e, wfe e -> nb (fc e) = true.
+Lemma fc_nb_field : forall e, wfe e -> isfield e = true -> isline e = false -> nb (fc e) = true.
 Proof.
-  intros e W. destruct (isfield e) eqn:F; [|apply good_nb; apply fc_good; assumption].
-  destruct e; try discriminate; cbn [fc].
+  intros e W F L. destruct e; try discriminate; cbn [fc].
   - destruct W as [W Fl]. apply good_nb. apply fc_good; assumption.
   - destruct W as (W & _). destruct (wf_name_hd n W) as (c & r & E & I). subst. apply good_nb. apply start_good. exact I.
   - reflexivity.
+Qed.
+Lemma fc_nb : forall e, wfe e -> nb (fc e) = true.
+Proof.
+  intros e W. destruct (isfield e) eqn:F; [|apply good_nb; apply fc_good; assumption].
+  destruct (isline e) eqn:L; [|apply fc_nb_field; assumption].
+  destruct e; try discriminate; cbn [fc]; [|reflexivity]. destruct W as (W & Ff & Lf & _). apply fc_nb_field; assumption.
 Qed.
 Lemma safe_sp c : nb c = true -> LexAdj.safe sp (Some c) = true.
 Proof. intros H. cbn. exact H. Qed.
@@ -237,15 +254,26 @@ Proof.
   - destruct W as (W & _). constructor; [apply wf_kw_sym; reflexivity|]. apply Forall_app. split; [apply IHe; exact W|]. constructor; [apply wf_kw_sym; reflexivity|constructor].
   - destruct fs as [|f fs]; [repeat constructor; apply wf_kw_sym; reflexivity|].
     constructor; [apply wf_kw_sym; reflexivity|]. constructor; [apply wf_sp|]. apply Forall_app. split; [|constructor; [apply wf_sp|constructor; [apply wf_kw_sym; reflexivity|constructor]]].
-    apply wf_commas. apply Forall_map. change (wfl (f :: fs) true) in W. apply wfl_Forall in W. rewrite Forall_forall in *. intros x Hx. apply H; [exact Hx|]. apply (W x Hx).
+    apply wf_commas. apply Forall_map. destruct W as [W _]. change (wfl (f :: fs) true) in W. apply wfl_Forall in W. rewrite Forall_forall in *. intros x Hx. apply H; [exact Hx|]. apply (W x Hx).
   - destruct W as (W & _). apply IHe. exact W.
   - destruct W as (N & W & _). constructor; [exact N|]. constructor; [apply wf_sp|]. constructor; [apply wf_kw_sym; reflexivity|]. constructor; [apply wf_sp|apply IHe; exact W].
   - destruct W as (W1 & _ & W2 & _). constructor; [apply wf_kw_sym; reflexivity|]. apply Forall_app. split; [apply IHe1; exact W1|].
     constructor; [apply wf_kw_sym; reflexivity|]. constructor; [apply wf_sp|]. constructor; [apply wf_kw_sym; reflexivity|]. constructor; [apply wf_sp|apply IHe2; exact W2].
   - (* a table over several lines *) destruct fs as [|f fs]; [repeat constructor; apply wf_kw_sym; reflexivity|].
+    change (Forall wf_tok (kw "{" :: eol cf :: Fmt0Proof.tlines cf d (f :: fs) ++ indent cf d ++ [kw "}"])).
     constructor; [apply wf_kw_sym; reflexivity|]. constructor; [apply wf_eol|]. apply Forall_app. split; [|apply Forall_app; split; [apply wf_indent|constructor; [apply wf_kw_sym; reflexivity|constructor]]].
-    change (wfl (f :: fs) true) in W. apply wfl_Forall in W. apply Forall_concat. apply Forall_map. rewrite Forall_forall in *. intros x Hx.
-    apply Forall_app. split; [apply wf_indent|]. apply Forall_app. split; [apply H; [exact Hx|apply (W x Hx)]|]. constructor; [apply wf_kw_sym; reflexivity|constructor; [apply wf_eol|constructor]].
+    change (wfl (f :: fs) true) in W. apply wfl_Forall in W. unfold Fmt0Proof.tlines. apply Forall_concat. apply Forall_map. rewrite Forall_forall in *. intros x Hx.
+    destruct (W x Hx) as [Wx _]. pose proof (H x Hx Wx (S d)) as Hp.
+    assert (B : forall (bl : bool) k, Forall wf_tok k -> Forall wf_tok ((if bl then [eol cf] else []) ++ k)) by (intros bl k Hk; destruct bl; [constructor; [apply wf_eol|exact Hk]|exact Hk]).
+    destruct (isline x) eqn:L.
+    + destruct x; try discriminate; cbn [Fmt0Proof.tline].
+      * (* a field line *) cbn [Fmt0.pexp] in Hp. destruct Wx as (_ & _ & _ & Wt). apply B. apply Forall_app. split; [apply wf_indent|]. apply Forall_app. split; [exact Hp|].
+        constructor; [apply wf_kw_sym; reflexivity|]. apply Forall_app. split; [|constructor; [apply wf_eol|constructor]].
+        destruct t as [t1|]; [|constructor]. destruct Wt as (A1 & A2 & _). constructor; [apply wf_sp|]. constructor; [split; assumption|constructor].
+      * (* a comment line *) destruct Wx as (A1 & A2 & _). apply B. apply Forall_app. split; [apply wf_indent|]. constructor; [split; assumption|]. constructor; [apply wf_eol|constructor].
+    + rewrite (Fmt0Proof.tline_plain cf d x L). apply Forall_app. split; [apply wf_indent|]. apply Forall_app. split; [exact Hp|]. constructor; [apply wf_kw_sym; reflexivity|constructor; [apply wf_eol|constructor]].
+  - (* a field line outside a table *) destruct W as (W & _). apply IHe. exact W.
+  - (* a comment line outside a table *) constructor; [apply wf_kw_word; [split; reflexivity|apply is_keyword_base; reflexivity]|constructor].
 Qed.
 
 (* ---- adjacency: every token of an expression is compatible with what follows it ---- *)
@@ -355,6 +383,10 @@ Lemma gs_sp r n : (exists ch, nextc r n = Some ch /\ nb ch = true) -> gs r n -> 
 Proof. intros (ch & E & B) H. apply gs_cons; [apply wf_sp|rewrite E; apply safe_sp; exact B|exact H]. Qed.
 Lemma gs_sym s r n : wf_tok (kw s) -> safe (kw s) (nextc r n) = true -> gs r n -> gs (kw s :: r) n.
 Proof. intros. apply gs_cons; assumption. Qed.
+Lemma gs_com x r n : wf_com x -> nextc r n = Some Lex.LF -> gs r n -> gs (TLineCom x :: r) n.
+Proof. intros (A & B & _) E H. apply gs_cons; [split; assumption|rewrite E; reflexivity|exact H]. Qed.
+Lemma eol_unix : windows0 cf = false -> forall r n, nextc (eol cf :: r) n = Some Lex.LF.
+Proof. intros H r n. unfold eol. rewrite H. reflexivity. Qed.
 
 Lemma blank_nb_follow ch : nb ch = true -> negb (blank ch) && negb (Lex.eqc ch Lex.LF) && negb (Lex.eqc ch Lex.CR) = true.
 Proof. intros H. exact H. Qed.
@@ -427,7 +459,7 @@ Proof.
     apply IHe2; [exact W2|apply okn_of_clo; exact C].
   - (* parens *) destruct W as (W & F). rewrite adj_cons. apply andb_true_iff. split; [reflexivity|].
     rewrite adj_app. apply andb_true_iff. split; [|reflexivity]. apply IHe; [exact W|apply okn_of_clo; reflexivity].
-  - (* table *) destruct fs as [|f fs]; [reflexivity|]. change (wfl (f :: fs) true) in W.
+  - (* table *) destruct fs as [|f fs]; [reflexivity|]. destruct W as [W _]. change (wfl (f :: fs) true) in W.
     rewrite adj_cons. apply andb_true_iff. split; [reflexivity|]. rewrite adj_cons. apply wfl_Forall in W.
     assert (E : Forall elem (map (pexp d) (f :: fs))).
     { apply Forall_map. rewrite Forall_forall in *. intros x Hx. apply elem_pexp; [apply (W x Hx)|]. intros m M. apply H; [exact Hx|apply (W x Hx)|exact M]. }
@@ -455,13 +487,26 @@ Proof.
     change (adj_ok (kw "{" :: eol cf :: Fmt0Proof.tlines cf d (f :: fs) ++ indent cf d ++ [kw "}"]) nx = true).
     assert (L : forall l m, Forall (fun x => wfe x /\ isfield x = true) l -> Forall (fun e => wfe e -> forall d nx, okn e nx = true -> adj_ok (pexp d e) nx = true) l -> gs (Fmt0Proof.tlines cf d l) m).
     { intros l m Wl Hl. unfold Fmt0Proof.tlines. induction Wl as [|x r [Wx _] Wr IH]; [apply gs_nil|]. inversion Hl as [|? ? Hx Hr]; subst. cbn [map List.concat].
-      apply gs_app; [|apply IH; exact Hr]. apply gs_indent.
-      - exists (fc x). split; [rewrite nextc_app_ne by apply pexp_ne; apply nextc_pexp; exact Wx|apply fc_nb; exact Wx].
-      - apply gs_app; [split; [apply wf_toks_pexp; exact Wx|apply Hx; [exact Wx|reflexivity]]|].
+      apply gs_app; [|apply IH; exact Hr]. generalize (nextc (List.concat (map (Fmt0Proof.tline cf d) r)) m). intros n0.
+      assert (B : forall (bl : bool) k, gs k n0 -> gs ((if bl then [eol cf] else []) ++ k) n0) by (intros bl k Hk; destruct bl; [apply gs_eol; exact Hk|exact Hk]).
+      assert (P : forall g k, wfe g -> (forall d, adj_ok (pexp d g) (Some ","%char) = true) -> gs (kw "," :: k) n0 -> gs (indent cf (S d) ++ pexp (S d) g ++ kw "," :: k) n0).
+      { intros g k Wg Hg Hk. apply gs_indent.
+        - exists (fc g). split; [rewrite nextc_app_ne by apply pexp_ne; apply nextc_pexp; exact Wg|apply fc_nb; exact Wg].
+        - apply gs_app; [split; [apply wf_toks_pexp; exact Wg|apply Hg]|exact Hk]. }
+      destruct (isline x) eqn:Lx.
+      - destruct x; try discriminate; cbn [Fmt0Proof.tline].
+        + (* a field line *) pose proof Wx as Wx0. destruct Wx as (Wg & _ & _ & Wt). apply B. apply P; [exact Wg|intros d0; apply (Hx Wx0 d0 (Some ","%char)); reflexivity|].
+          apply gs_sym; [apply wf_kw_sym; reflexivity|reflexivity|]. destruct t as [t1|]; cbn [app].
+          * apply gs_sp; [eexists; split; reflexivity|]. apply gs_com; [exact Wt|apply eol_unix; apply Wt|]. apply gs_eol. apply gs_nil.
+          * apply gs_eol. apply gs_nil.
+        + (* a comment line *) apply B. apply gs_indent; [eexists; split; reflexivity|]. cbn [app]. apply gs_com; [exact Wx|apply eol_unix; apply Wx|]. apply gs_eol. apply gs_nil.
+      - rewrite (Fmt0Proof.tline_plain cf d x Lx). apply P; [exact Wx|intros d0; apply (Hx Wx d0 (Some ","%char)); reflexivity|].
         apply gs_sym; [apply wf_kw_sym; reflexivity|reflexivity|]. apply gs_eol. apply gs_nil. }
     assert (G : gs (kw "{" :: eol cf :: Fmt0Proof.tlines cf d (f :: fs) ++ indent cf d ++ [kw "}"]) nx); [|exact (proj2 G)].
     apply gs_sym; [apply wf_kw_sym; reflexivity|reflexivity|]. apply gs_eol. apply gs_app; [apply L; assumption|].
     apply gs_indent; [exists "}"%char; split; reflexivity|]. apply gs_sym; [apply wf_kw_sym; reflexivity|reflexivity|apply gs_nil].
+  - (* a field line outside a table *) destruct W as (W & _ & _ & _). apply IHe; [exact W|]. apply okn_of_clo. eapply okn_clo; [|exact K]; reflexivity.
+  - (* a comment line outside a table *) rewrite adj_cons, andb_true_r. apply safe_kw_word; [reflexivity|]. apply (okn_word _ _ K).
 Qed.
 
 (* ================= normalisation preserves well-formedness ================= *)
@@ -480,7 +525,10 @@ Fixpoint wfe1 (e : exp) : Prop :=
   | EUn u x => wfe1 x /\ isfield x = false /\ can (shape (EUn u x)) = true /\ match u with BNot => False | _ => True end
   | EBin b l r => wf_bop b = true /\ wfe1 l /\ isfield l = false /\ wfe1 r /\ isfield r = false
   | EParen x => wfe1 x /\ isfield x = false
-  | ETable fs | ETableML fs => all fs true
+  | ETable fs => all fs true /\ forallb (fun x => negb (isline x)) fs = true
+  | ETableML fs => all fs true
+  | FLine _ f t => wfe1 f /\ isfield f = true /\ isline f = false /\ wft t
+  | FCom _ x => wf_com x
   | FPos x => wfe1 x /\ isfield x = false
   | FNamed n x => wf_name n /\ wfe1 x /\ isfield x = false
   | FKey k x => wfe1 k /\ isfield k = false /\ wfe1 x /\ isfield x = false
@@ -547,13 +595,17 @@ Proof.
   - (* binary *) destruct W as (B & W1 & F1 & W2 & F2). cbn [wfe]. split; [exact B|]. split; [apply IHe1; exact W1|]. split; [rewrite (isfield_nexp _ _ W1); exact F1|].
     split; [apply IHe2; exact W2|rewrite (isfield_nexp _ _ W2); exact F2].
   - (* parentheses *) destruct W as (W & F). destruct (Parens.droppable cx (shape e)); [apply IHe; exact W|]. cbn [wfe]. split; [apply IHe; exact W|rewrite (isfield_nexp _ _ W); exact F].
-  - (* table *) change (wfl (map (nexp Parens.Std) fs) true). change (wfl1 fs true) in W. induction fs as [|a r IHr]; [exact I|].
-    inversion H as [|? ? Ha Hr]; subst. destruct W as [[Wa Fa] Wr]. cbn [map wfl]. split; [split; [apply Ha; exact Wa|rewrite (isfield_nexp _ _ Wa); exact Fa]|apply IHr; assumption].
+  - (* table *) destruct W as [W Nl]. cbn [wfe]. split.
+    + change (wfl (map (nexp Parens.Std) fs) true). change (wfl1 fs true) in W. clear Nl. induction fs as [|a r IHr]; [exact I|].
+      inversion H as [|? ? Ha Hr]; subst. destruct W as [[Wa Fa] Wr]. cbn [map wfl]. split; [split; [apply Ha; exact Wa|rewrite (isfield_nexp _ _ Wa); exact Fa]|apply IHr; assumption].
+    + clear -Nl. induction fs as [|a r IHr]; [reflexivity|]. cbn [map forallb] in *. apply andb_true_iff in Nl. destruct Nl as [Na Nr].
+      apply negb_true_iff in Na. rewrite (Fmt0Proof.isline_nexp a Parens.Std Na), (IHr Nr). reflexivity.
   - destruct W as (W & F). cbn [wfe]. split; [apply IHe; exact W|rewrite (isfield_nexp _ _ W); exact F].
   - destruct W as (N & W & F). cbn [wfe]. split; [exact N|]. split; [apply IHe; exact W|rewrite (isfield_nexp _ _ W); exact F].
   - destruct W as (W1 & F1 & W2 & F2). cbn [wfe]. split; [apply IHe1; exact W1|]. split; [rewrite (isfield_nexp _ _ W1); exact F1|]. split; [apply IHe2; exact W2|rewrite (isfield_nexp _ _ W2); exact F2].
   - (* table over several lines *) change (wfl (map (nexp Parens.Std) fs) true). change (wfl1 fs true) in W. induction fs as [|a r IHr]; [exact I|].
     inversion H as [|? ? Ha Hr]; subst. destruct W as [[Wa Fa] Wr]. cbn [map wfl]. split; [split; [apply Ha; exact Wa|rewrite (isfield_nexp _ _ Wa); exact Fa]|apply IHr; assumption].
+  - (* a field line *) destruct W as (W & F & L & T). cbn [wfe]. split; [apply IHe; exact W|]. split; [rewrite (isfield_nexp _ _ W); exact F|]. split; [apply Fmt0Proof.isline_nexp; exact L|exact T].
 Qed.
 
 (* ================= statements ================= *)
@@ -599,8 +651,6 @@ Lemma first_pnames nm ns n : wf_name nm -> exists ch, nextc (pnames (nm :: ns)) 
 Proof. intros W. unfold pnames. cbn [map]. apply nextc_commas_g. apply elemg_name. exact W. Qed.
 
 (* ---- well-formed statements ---- *)
-Definition wf_com (x : bytes) : Prop :=
-  no_lf x = true /\ (match x with ch :: _ => Lex.eqc ch "[" = false | [] => True end) /\ windows0 c = false.
 Definition wf_triv (tv : trivia) : Prop := Forall (fun bc : bool * bytes => wf_com (snd bc)) tv.
 Definition wfcond (e : exp) : Prop := wfe e /\ isfield e = false.
 Fixpoint wfs (s : stmt) : Prop :=
@@ -632,7 +682,7 @@ Notation pexps := (Fmt0.pexps cf).
 Lemma first_pstmt s d n : wfs s -> exists ch, nextc (pstmt c d s) n = Some ch /\ nb ch = true.
 Proof.
   destruct s; intros W; try (eexists; split; [reflexivity|reflexivity]);
-    try (rewrite Fmt0Proof.p_if; match goal with |- context [if_guard ?a ?b ?c] => destruct (if_guard a b c) end; eexists; split; reflexivity).
+    try (rewrite Fmt0Proof.p_if; match goal with |- context [if_guard ?a ?b ?c] => destruct (if_guard a b c) end; try match goal with |- context [nocom ?x] => destruct (nocom x) end; eexists; split; reflexivity).
   - destruct es; eexists; split; reflexivity.
   - cbn [pstmt psimple]. destruct W as (N & _ & W & _). destruct vs as [|x vs]; [contradiction|]. inversion W as [|? ? [Wx _] _]; subst.
     destruct (first_pexps d x vs None Wx) as (ch & E & B). exists ch. split; [|exact B].
@@ -658,10 +708,6 @@ Lemma gs_block_end b d n : Bs b -> wfb b -> eolish n = true -> gs (pblk c (S d) 
 Proof. intros H W E. apply gs_app; [apply H; exact W|apply gs_end; exact E]. Qed.
 Lemma first_cond d e r n : wfe e -> exists ch, nextc (pexp d e ++ r) n = Some ch /\ nb ch = true.
 Proof. intros W. rewrite nextc_app_ne by apply pexp_ne. exists (fc e). split; [apply nextc_pexp; exact W|apply fc_nb; exact W]. Qed.
-Lemma gs_com x r n : wf_com x -> nextc r n = Some Lex.LF -> gs r n -> gs (TLineCom x :: r) n.
-Proof. intros (A & B & _) E H. apply gs_cons; [split; assumption|rewrite E; reflexivity|exact H]. Qed.
-Lemma eol_unix : windows0 c = false -> forall r n, nextc (eol c :: r) n = Some Lex.LF.
-Proof. intros H r n. unfold eol. rewrite H. reflexivity. Qed.
 Lemma gs_ptrivia d tv r n : wf_triv tv -> gs r n -> gs (ptrivia c d tv ++ r) n.
 Proof.
   unfold ptrivia. induction 1 as [|[b x] k Hx Hk IH]; intros H; [exact H|]. cbn [map List.concat fst snd]. rewrite <- !app_assoc.
@@ -714,7 +760,7 @@ Proof.
   intros H W E. unfold Fmt0Proof.fbody. destruct (blk_empty b).
   - spc. apply gs_word; [wfkw|reflexivity|apply eolish_word; exact E|apply gs_nil].
   - destruct (fun_guard c b) as [s1|] eqn:G.
-    + destruct (oneline (psimple c d s1)); [|apply gs_eol; apply gs_block_end; assumption].
+    + destruct (oneline (psimple c d s1) && nocom (psimple c d s1)); [|apply gs_eol; apply gs_block_end; assumption].
       unfold fun_guard in G. destruct (collapse_fun (collapse0 c)); [|discriminate]. destruct (simple_blk_wfs b s1 G W) as [W1 S1]. apply gs_collapsed; assumption.
     + apply gs_eol. apply gs_block_end; assumption.
 Qed.
@@ -767,13 +813,15 @@ Proof.
     + (* repeat *) destruct H0 as [Wb [We _]]. rewrite Fmt0Proof.p_repeat. word. apply gs_eol. apply gs_app; [apply H; exact Wb|].
       apply gs_indent; [eexists; split; reflexivity|]. word. apply gs_sp; [exists (fc e); split; [apply nextc_pexp; exact We|apply fc_nb; exact We]|].
       apply gs_pexp; [exact We|apply okn_of_clo; apply eolish_clo; exact H1].
-    + (* if *) destruct H1 as ([We _] & Wt & Wr). rewrite Fmt0Proof.p_if. destruct (if_guard c t r) as [s1|] eqn:G.
-      * unfold if_guard in G. destruct (collapse_if (collapse0 c)); [|discriminate]. destruct r; try discriminate. destruct (simple_blk_wfs t s1 G Wt) as [W1 S1].
-        word. apply gs_sp; [apply first_cond; exact We|]. apply gs_app; [apply gs_pexp; [exact We|apply okn_of_clo; reflexivity]|]. spc. word.
-        apply gs_collapsed; assumption.
-      * word. apply gs_sp; [apply first_cond; exact We|].
+    + (* if *) destruct H1 as ([We _] & Wt & Wr). rewrite Fmt0Proof.p_if.
+      assert (N : gs (kw "if" :: sp :: pexp d e ++ sp :: kw "then" :: eol c :: pblk c (S d) t ++ pels c d r ++ indent c d ++ [kw "end"]) n).
+      { word. apply gs_sp; [apply first_cond; exact We|].
         apply gs_app; [apply gs_pexp; [exact We|apply okn_of_clo; reflexivity]|]. spc. word. apply gs_eol. apply gs_app; [apply H; exact Wt|].
-        apply gs_app; [apply H0; exact Wr|]. apply gs_end. exact H2.
+        apply gs_app; [apply H0; exact Wr|]. apply gs_end. exact H2. }
+      destruct (if_guard c t r) as [s1|] eqn:G; [destruct (nocom (psimple c d s1)); [|exact N]|exact N].
+      unfold if_guard in G. destruct (collapse_if (collapse0 c)); [|discriminate]. destruct r; try discriminate. destruct (simple_blk_wfs t s1 G Wt) as [W1 S1].
+      word. apply gs_sp; [apply first_cond; exact We|]. apply gs_app; [apply gs_pexp; [exact We|apply okn_of_clo; reflexivity]|]. spc. word.
+      apply gs_collapsed; assumption.
     + (* numeric for *) destruct H0 as (Wx & [Wa _] & [Wb _] & Wst & Wbody). rewrite Fmt0Proof.p_numfor. word.
       apply gs_sp; [destruct (wf_name_hd _ Wx) as (cx & rx & Ex & Ix); rewrite Ex; eexists; split; [reflexivity|apply good_nb; apply start_good; exact Ix]|].
       apply gs_cons; [exact Wx|reflexivity|]. spc. apply gs_sym; [wfkw|reflexivity|]. apply gs_sp; [apply first_cond; exact Wa|].
@@ -947,11 +995,14 @@ Proof.
   - destruct W as (W & F & U). cbn [wfe]. split; [apply IHe; exact W|]. split; [rewrite isfield_cexp; exact F|]. rewrite fc_cexp. exact U.
   - destruct W as (B & W1 & F1 & W2 & F2). cbn [wfe]. split; [exact B|]. split; [apply IHe1; exact W1|]. split; [rewrite isfield_cexp; exact F1|]. split; [apply IHe2; exact W2|rewrite isfield_cexp; exact F2].
   - destruct W as (W & F). cbn [wfe]. split; [apply IHe; exact W|rewrite isfield_cexp; exact F].
-  - change (wfl (map (cexp m false) fs) true). apply wfl_map_cexp; assumption.
+  - destruct W as [W Nl]. cbn [wfe]. split; [change (wfl (map (cexp m false) fs) true); apply wfl_map_cexp; assumption|].
+    clear -Nl. induction fs as [|a r IHr]; [reflexivity|]. cbn [map forallb] in *. apply andb_true_iff in Nl. destruct Nl as [Na Nr]. rewrite (IHr Nr), andb_true_r.
+    destruct a; try discriminate; reflexivity.
   - destruct W as (W & F). cbn [wfe]. split; [apply IHe; exact W|rewrite isfield_cexp; exact F].
   - destruct W as (N & W & F). cbn [wfe]. split; [exact N|]. split; [apply IHe; exact W|rewrite isfield_cexp; exact F].
   - destruct W as (W1 & F1 & W2 & F2). cbn [wfe]. split; [apply IHe1; exact W1|]. split; [rewrite isfield_cexp; exact F1|]. split; [apply IHe2; exact W2|rewrite isfield_cexp; exact F2].
   - change (wfl (map (cexp m false) fs) true). apply wfl_map_cexp; assumption.
+  - destruct W as (W & F & L & T). cbn [wfe]. split; [apply IHe; exact W|]. split; [rewrite isfield_cexp; exact F|]. split; [destruct e; try discriminate; reflexivity|exact T].
 Qed.
 Theorem wfb_norm0 p : wfb1 p -> wfb (norm0 c p).
 Proof.
@@ -972,7 +1023,7 @@ Definition prog_example : blk :=
   Blk [ Item [(false, str " a comment")] false
           (SLocal [str "x"] [EUn Neg (EParen (EUn Neg (ECall (EName (str "f")) false [ENum (str "12"); EStr (str "it's")])))]) (Some (str " trailing"));
         Item [] true (SWhile (EBin Lt (EName (str "x")) (ENum (str "3"))) (Blk [Item [] false (SCall (EMethod (EName (str "o")) (str "m") true [EStr (str "sugar")])) None] [(false, str " end of block")])) None;
-        Item [] false (SLocal [str "t"] [ETableML [FNamed (str "a") (ENum (str "1")); FPos (ETableML [FPos (EName (str "x"))])]]) None ] [].
+        Item [] false (SLocal [str "t"] [ETableML [FCom false (str " a comment line"); FLine true (FNamed (str "a") (ENum (str "1"))) (Some (str " behind the comma")); FPos (ETableML [FPos (EName (str "x")); FCom true (str " dangling")])]]) None ] [].
 Example example_is_well_formed : wfb1 v51 cfg_example prog_example.
 Proof.
   cbn. repeat split; try reflexivity; try discriminate; try (repeat constructor; fail);
